@@ -39,6 +39,12 @@ def gen_cases(tier, seed):
         case["policy"] = str(rng.choice(["const", "memo"]))
         case["y0"] = "rand" if rng.random() < 0.5 else "none"
         case["wspan"] = 5
+        if fam in ("QP", "NLP") and rng.random() < 0.25:
+            # the user's matrices reach the step solvers unconverted: no scaling, equality rows only (no slacks)
+            cfgd["scaling"] = "none"
+            case["gopts"] = {"row_force": ["eq"] * 12}
+            if rng.random() < 0.5:
+                cfgd["newton"] = "Globalized"
         cases.append(case)
     return cases
 
